@@ -21,7 +21,7 @@
                                            is still the state afterwards; hence `obs e.snap e.reader =
                                            obs s0 e.reader` for every result function `obs`;
     "loaded (and refreshed after any modification)" = `Valid s0`: caches valid (established by
-                                           `C17_refresh_validates` / `C17_load_validates`) and every static
+                                           `C17_refresh_validates` / `C17_load_validates`, the latter for every flag word) and every static
                                            cache initialised once (`Warm`, the documented restriction: the
                                            cold-start same-value write race on those statics is finding F15).
 
@@ -44,9 +44,8 @@ open Hw Hw.Conc
     distances structures and attributes with any flags), after `hwloc_topology_refresh` every distances structure
     that is still there has OBJS_VALID and every attribute has CACHE_VALID; nothing else changes. -/
 theorem C17_refresh_validates (s : TopoState) :
-    (∀ d ∈ (refresh s).dists, d.valid = true) ∧ (∀ a ∈ (refresh s).attrs, a.valid = true) ∧
     CachesValid (refresh s) ∧ (refresh s).warm = s.warm ∧ (refresh s).content = s.content :=
-  ⟨(refresh_strong s).1, (refresh_strong s).2, refresh_cachesValid s, rfl, rfl⟩
+  ⟨refresh_cachesValid s, rfl, rfl⟩
 
 /-- ... in particular after ANY history of modifying calls (arbitrary state transformers that do not reset the
     process-wide static caches) followed by a refresh, from any state. -/
@@ -61,17 +60,27 @@ theorem C17_refresh_validates_history (hist : List (TopoState → TopoState)) (s
       exact ih (f s) (fun g hg => hk g (List.mem_cons_of_mem _ hg)) (hk f (List.mem_cons_self ..) s hw)
   exact this
 
-/-- P0 refresh_validates, load part: the tail of `hwloc_topology_load` (invalidate, then refresh) leaves every
-    cache valid — when no RESTRICT_TO_*BINDING flag restricts afterwards. -/
-theorem C17_load_validates (surv surv2 : Nat → Bool) (s : TopoState) :
-    CachesValid (loadTail surv surv2 false s) :=
-  loadTail_cachesValid surv surv2 s
+/-- hwloc_topology_refresh as the GENERATED statement sequence, under any flag word (also NO_DISTANCES / NO_MEMATTRS / NO_CPUKINDS:
+    the user may have added distances or attribute values afterwards): from ANY state every cache becomes valid. -/
+theorem C17_refresh_validates_flags (flags : Nat) (o : LoadOracle) (s : TopoState) :
+    CachesValid (runSeq Hw.Gen.ComponentsIR.refreshSeq flags o s) := by
+  rw [show Hw.Gen.ComponentsIR.refreshSeq = Model.refreshSeq by decide, runSeq_refreshSeq]
+  exact refresh_cachesValid s
 
-/-- negative fact (finding F33): with HWLOC_TOPOLOGY_FLAG_RESTRICT_TO_CPUBINDING / _MEMBINDING the restrict runs
-    after the refresh of load and leaves every distances structure invalid. -/
-theorem C17_load_binding_restrict_invalid (surv surv2 : Nat → Bool) (s : TopoState) :
-    ∀ d ∈ (loadTail surv surv2 true s).dists, d.valid = false :=
-  loadTail_binding_invalid surv surv2 s
+/-- P0 refresh_validates, load part, on the GENERATED statement sequence of the tail of hwloc_topology_load: for EVERY flag
+    word (RESTRICT_TO_CPUBINDING / _MEMBINDING, NO_DISTANCES, NO_MEMATTRS, NO_CPUKINDS in any combination) and every
+    outcome of the binding restricts (run or not, whichever distances structures survive), load returns with every cache
+    valid. -/
+theorem C17_load_validates (flags : Nat) (o : LoadOracle) (s : TopoState) (h : FlaggedOffValid flags s) :
+    CachesValid (runSeq Hw.Gen.ComponentsIR.loadSeq flags o s) := by
+  rw [show Hw.Gen.ComponentsIR.loadSeq = Model.loadSeq by decide]
+  exact loadTail_cachesValid flags o s h
+
+/-- why the second refresh of load is needed (finding F51, fixed by 6c24a9e): the statement sequence without its last step
+    leaves every distances structure invalid when RESTRICT_TO_CPUBINDING restricts. -/
+theorem C17_load_second_refresh_needed (o : LoadOracle) (ho : o.ranCpu = true) (s : TopoState) :
+    ∀ d ∈ (runSeq Model.loadSeqUnfixed flagRestrictToCpubinding o s).dists, d.valid = false :=
+  loadUnfixed_binding_invalid o ho s
 
 /-- P0 valid_readers_write_free: in a valid state no consulting entry point writes shared state: every access is a
     read of topology data or an access to the component registry under the components mutex. -/
@@ -135,6 +144,11 @@ theorem C17_unrefreshed_memattr_write (s : TopoState) (i : Nat) (a : AttrSlot) (
 /-- generated IR = model IR (tie T; re-checked on every run against /repo's components.c) -/
 theorem C17_gen_ir_matches_init : Hw.Gen.ComponentsIR.initProg = Reg.Model.initProg := by decide
 theorem C17_gen_ir_matches_fini : Hw.Gen.ComponentsIR.finiProg = Reg.Model.finiProg := by decide
+theorem C17_gen_flags_match : Hw.Gen.ComponentsIR.flags = Model.flags := by decide
+theorem C17_gen_load_seq_matches : Hw.Gen.ComponentsIR.loadSeq = Model.loadSeq := by decide
+theorem C17_gen_refresh_seq_matches : Hw.Gen.ComponentsIR.refreshSeq = Model.refreshSeq := by decide
+/-- the set of functions that may (re)build a lazy cache is the one the footprint table was written from -/
+theorem C17_gen_lazy_callers_match : Hw.Gen.ComponentsIR.lazyCallers = Model.lazyCallers := by decide
 
 /-- P0 registry_inv, stated on the GENERATED programs: for every number of threads `n` and every schedule of
     threads each running hwloc_components_init / hwloc_components_fini pairs (any number of times): no access
@@ -184,7 +198,7 @@ theorem C17_registry_quiescent (n : Nat) (sched : List Nat)
     needs an initiator; all static caches warm -/
 def exValid : TopoState :=
   { dists := [⟨0, true, true⟩, ⟨3, true, true⟩],
-    attrs := [⟨true, false, false⟩, ⟨false, false, true⟩, ⟨false, true, true⟩],
+    attrs := [⟨true, false, true⟩, ⟨false, false, true⟩, ⟨false, true, true⟩],
     warm := allStatics, content := 42 }
 
 example : Valid exValid := by
